@@ -122,7 +122,15 @@ def add_targets(E, spec, pid, which=("fingerprint", "peer", "convert")):
             cid = cert_of_der(d.z)
             ctx.assume(der_of(cid) == d.z)       # E12: parsing yields the certificate with that encoding
             return VOpaque("cert", cid)
-        M["cryptography.x509.load_der_x509_certificate"] = load_der
+        # other contract modules (server / client protocol) model the same library call over THEIR ghost state; this model
+        # applies only while x509_to_cryptography itself is the function being verified
+        prev_load = M.get("cryptography.x509.load_der_x509_certificate")
+
+        def load_der_scoped(ctx, args, kw):
+            if prev_load is not None and not str(E.current_top or "").startswith(q):
+                return prev_load(ctx, args, kw)
+            return load_der(ctx, args, kw)
+        M["cryptography.x509.load_der_x509_certificate"] = load_der_scoped
 
         def cv_args(ctx):
             return [VOpaque("x509", z3.Int("cert_id"))], {}
